@@ -32,6 +32,7 @@ const COMPONENTS: &str = "\
 {% component pill(label) %}<i>{{ label }}</i>{% endcomponent pill %}\
 {% component box(t = \"x\") %}[{{ t }}:{{ body }}]{% endcomponent box %}\
 {% component list(items: array, sep = \", \") %}{% for i in items %}{{ i }}{% if not loop.last %}{{ sep }}{% endif %}{% endfor %}{% endcomponent list %}\
+{% component deep(n=0) %}{% if n > 0 %}{{ <deep n={n - 1} /> }}{% endif %}.{% endcomponent deep %}\
 {% component yell(label) %}<{{ label | shout }}{{ peek() }}>{% endcomponent yell %}\
 {% component card(title, ...rest) %}{% set h %}<h1>{{ title }}</h1>{% endset %}{{ h }}{{ <pill label={title} /> }}{{ rest }}{{ body }}{% endcomponent card %}";
 
@@ -137,6 +138,14 @@ const COMPONENT_CALLS: &[(&str, Option<&str>, u8)] = &[
     ("nosuch", None, 0),
     ("yell", None, 0),
     ("yell", Some("<b>"), 1),
+    // a component that nests itself n more times, n = the style number: on both sides of the nesting
+    // limit of 20 (seeded change C18-9: the String variant of render_component counted one level more
+    // than its writer sibling, visible at exactly one depth)
+    ("deep", None, 17),
+    ("deep", None, 18),
+    ("deep", None, 19),
+    ("deep", None, 20),
+    ("deep", None, 21),
 ];
 
 fn context_jsons() -> Vec<(&'static str, Json)> {
@@ -205,13 +214,18 @@ impl Call {
             Call::Str(n, _, ae) => format!("render_str(<source of {n:?}>, autoescape={ae})"),
             Call::Component(c, body, style, ae) => format!(
                 "render_component({c:?}, {}, body={body:?}, autoescape={ae})",
-                if *style == 0 { "declared arguments from the context" } else { "the whole context" }
+                if c == "deep" { format!("n = {style}") } else if *style == 0 { "declared arguments from the context".to_string() } else { "the whole context".to_string() }
             ),
         }
     }
 }
 
 fn component_context(name: &str, style: u8, base: &Context) -> Context {
+    if name == "deep" {
+        let mut c = Context::new();
+        c.insert("n", &(style as i64));
+        return c;
+    }
     if style == 1 {
         return base.clone();
     }
